@@ -141,6 +141,7 @@ func checkMain(args []string) {
 		ev.finish(*verif, start, 1, "load failed: "+err.Error())
 		os.Exit(1)
 	}
+	prog.curProp = prop
 	loadS := time.Since(start).Seconds()
 	{
 		pinned := map[string][]string{}
